@@ -105,7 +105,7 @@ def _run(F, R, ctx):
     }
     c04.tracing_rule(F, R, "C18.d", ["IterativeDropHandler"], hm.handle_bearing(F), every_path=False, allow=DROP_ALLOW, floor=15)
     dh = F.one(r"\{impl IterativeDropHandler(<'a>)?\}::bfs$")
-    R.inst("C18.d", "IterativeDropHandler::bfs runs the work-list visitor", bool(dh.call_blocks(r"::visit$")),
+    R.inst("C18.d", "IterativeDropHandler::bfs runs the work-list visitor", bool(dh.call_blocks(r"::visit$", wrappers=True)),
            "IterativeDropHandler::bfs no longer drains its work-list", dh.loc(), sample=True)
 
     # ---- e: the printer looks cycle nodes up under the key the collector registered them with
@@ -216,7 +216,7 @@ def _run(F, R, ctx):
     R.inst("C18.c", "RecursiveEqualityHandler::visit bounds its recursion depth", bool(depth),
            "RecursiveEqualityHandler::visit no longer tests eq_depth()", fn.loc(), sample=True)
     sh = F.one(r"RecursiveEqualityHandler\}::should_visit$")
-    R.inst("C18.c", "should_visit records what it has seen", bool(sh.call_blocks(r"::(insert|contains)$")) or
+    R.inst("C18.c", "should_visit records what it has seen", bool(sh.call_blocks(r"::(insert|contains)$", wrappers=True)) or
            any(re.search(r"::(insert|contains)$", b["callee"]) for _, b in lib.family_calls(F, sh)),
            "should_visit no longer inserts into / tests the visited set", sh.loc(), sample=True)
     ins = [i for i, b in sh.calls() if re.search(r"::insert$", b["callee"])]
@@ -227,7 +227,7 @@ def _run(F, R, ctx):
            "its children) and a cycle through such a path does not terminate", sh.loc(), sample=True)
     fc = F.one(r"\{impl CycleDetector\}::format_with_cycles$")
     cmpd = [e for _, _, e in fc.events("binop") if e[1] in ("Gt", "Ge", "Lt", "Le") and e[2] == "usize"]
-    R.inst("C18.c", "CycleDetector::format_with_cycles bounds its depth", bool(cmpd) or bool(fc.call_blocks(r"stacker::")),
+    R.inst("C18.c", "CycleDetector::format_with_cycles bounds its depth", bool(cmpd) or bool(fc.call_blocks(r"stacker::", wrappers=True)),
            "the recursive printer has no depth comparison: printing a deeply nested value overflows the native stack",
            fc.loc(), sample=True)
 
